@@ -76,6 +76,26 @@ def read_journal(path):
     return recs
 
 
+def valgrind_blocks(text):
+    """memcheck error blocks whose stack contains a frame of a cvxopt module built from /repo.
+    returns list of (kind, top cvxopt frame, block text)"""
+    import re
+    out = []
+    blocks = re.split(r"(?m)^==\d+== \n", text)
+    for b in blocks:
+        m = re.search(r"==\d+== (Invalid read of size \d+|Invalid write of size \d+|Conditional jump or move depends on uninitialised value|"
+                      r"Use of uninitialised value of size \d+|Invalid free|Mismatched free|Syscall param .* uninitialised)", b)
+        if not m:
+            continue
+        frames = re.findall(r"(?:at|by) 0x[0-9A-F]+: (\S+) \(in [^)]*?/cvxopt/((?:base|blas|lapack|misc_solvers)\.[^)/]*\.so)\)", b)
+        frames += [(fn, f) for fn, f in re.findall(r"(?:at|by) 0x[0-9A-F]+: (\S+) \((\w+\.c):\d+\)", b)
+                   if f in ("base.c", "dense.c", "sparse.c", "blas.c", "lapack.c", "misc_solvers.c")]
+        if not frames:
+            continue
+        out.append((re.sub(r" of size \d+", "", m.group(1)).replace(" ", "-"), frames[0][0], b[:1500]))
+    return out
+
+
 def sanitizer_blocks(text):
     n = 0
     kinds = []
@@ -155,7 +175,7 @@ def main(argv):
             env["VERIF_ROOT_" + g["variant"].upper()] = roots[g["variant"]]
             for v2, r2 in roots.items():
                 env["VERIF_ROOT_" + v2.upper()] = r2
-            cmd = [VENV_PY, "-X", "faulthandler", "-m", "vlib.worker", prop, "--seed", str(seed),
+            cmd = list(g.get("wrap", [])) + [VENV_PY, "-X", "faulthandler", "-m", "vlib.worker", prop, "--seed", str(seed),
                    "--tier", tier, "--worker", str(w), "--nworkers", str(g["workers"]),
                    "--cases", str(g["cases"]), "--variant", g["variant"], "--journal", jp,
                    "--params", json.dumps(dict(g.get("params", {}), group=gname))]
@@ -208,6 +228,16 @@ def main(argv):
                 pass
             nb, kinds = sanitizer_blocks(errtxt)
             san_blocks += nb
+            if g.get("wrap") and "valgrind" in g["wrap"][0]:
+                vb = valgrind_blocks(errtxt)
+                counters["valgrind.error-blocks-with-cvxopt-frames"] = counters.get("valgrind.error-blocks-with-cvxopt-frames", 0) + len(vb)
+                counters["valgrind.workers"] = counters.get("valgrind.workers", 0) + 1
+                seenv = set()
+                for kind, fn, blk in vb:
+                    if (kind, fn) in seenv:
+                        continue
+                    seenv.add((kind, fn))
+                    violations.append(("valgrind:%s:%s" % (kind, fn), blk[:1200], {"group": gname, "variant": g["variant"], "worker": w, "k": -1}))
             for r in recs:
                 if r.get("verdict") == "violated":
                     for v in r["violations"]:
